@@ -439,7 +439,8 @@ def run(tier, seed, t0):
     keep = []
     for o in obs:
         if o.id.startswith('SOLVER/'):
-            if 'stored-answer' in o.id or 'prompt@' in o.id and 'declared' in o.id or (o.id.startswith('SOLVER/_attempt_field/') and any(
+            # "an input that was supplied is never reported missing": an answer given at a prompt (supplied and valid, blank included) is stored
+            if 'stored-answer' in o.id or 'every-answer-given' in o.id or 'prompt@' in o.id and 'declared' in o.id or (o.id.startswith('SOLVER/_attempt_field/') and any(
                     k in o.id for k in ('wait-on-input-is-justified', 'propagated-exception', 'no-internal-error', 'inputs-untouched', 'met-inputs-are-provided', 'subset'))):
                 o.id = o.id.replace('SOLVER/', 'C11/solver/')
                 keep.append(o)
